@@ -31,6 +31,8 @@ type Scenario struct {
 	World  func() *World
 	Prefix func(w *World) []BlockSpec
 	Target func(w *World) *TxSpec
+	// Also: further transactions of the target's block, delivered after the target (nil = the target is alone).
+	Also func(w *World) []*TxSpec
 	// After: blocks to run after the target so that delayed effects (maturities, verdicts) happen.
 	After int
 }
@@ -187,12 +189,21 @@ func RunScenario(sc *Scenario) (*Run, TxRes, TxRes, error) {
 		}
 	}
 	t := sc.Target(w)
-	res, err := x.Block(BlockSpec{Txs: []*TxSpec{t}})
+	tb := BlockSpec{Txs: []*TxSpec{t}}
+	if sc.Also != nil {
+		tb.Txs = append(tb.Txs, sc.Also(w)...)
+	}
+	res, err := x.Block(tb)
 	if err != nil {
 		return x, TxRes{}, TxRes{}, err
 	}
 	chk := x.Checks[len(x.Checks)-1][0]
 	dlv := res.Txs[0]
+	for j, r := range res.Txs[1:] {
+		if r.Code != 0 {
+			return x, chk, dlv, fmt.Errorf("companion transaction %d of the target's block failed in DeliverTx: %s", j+1, r.Log)
+		}
+	}
 	if sc.After > 0 {
 		if err := x.Empty(sc.After); err != nil {
 			return x, chk, dlv, err
@@ -208,7 +219,11 @@ func (sc *Scenario) History(w *World) (blocks []BlockSpec, targetBlock int) {
 		blocks = append(blocks, sc.Prefix(w)...)
 	}
 	targetBlock = len(blocks)
-	blocks = append(blocks, BlockSpec{Txs: []*TxSpec{sc.Target(w)}})
+	tb := BlockSpec{Txs: []*TxSpec{sc.Target(w)}}
+	if sc.Also != nil {
+		tb.Txs = append(tb.Txs, sc.Also(w)...)
+	}
+	blocks = append(blocks, tb)
 	for i := 0; i < sc.After; i++ {
 		blocks = append(blocks, BlockSpec{})
 	}
